@@ -1,15 +1,341 @@
-(* RegexFacts.v — what Theorem A needs from the regex model: on a backslash-free pattern the
-   model of the regex crate, run on the pattern that prepare_regex builds, answers what the
-   I-Regexp specification says.  (Placeholder model: every pattern is "unsupported" on both
-   sides; the real dialect model replaces Regex.v and these two lemmas.) *)
-From Coq Require Import List NArith Bool.
+(* RegexFacts.v — what Theorem A needs from the regex model: for a pattern without backslashes,
+   what the code computes (the pattern compiled by itself, then — for match — compiled wrapped in
+   ^(?: )$, then searched) is the whole-string / substring match of the parsed pattern. *)
+From Coq Require Import List NArith ZArith Bool Lia.
 From JP Require Import Base Eval Known Regex.
+Import ListNotations.
 
-Lemma rx_model_full_ok p s : no_bslash p = true ->
-  match rx_model_search (prepare_regex p false) s with Some b => b | None => false end
-  = rx_spec_full p s.
+(* ---------- one-step equations of the parser ---------- *)
+Lemma p_alt_step f s :
+  p_alt (S f) s =
+  match p_cat f s with
+  | XOk a (c :: r) =>
+      if N.eqb c 124 then match p_alt f r with XOk b r2 => XOk (RAlt a b) r2 | e => e end
+      else XOk a (c :: r)
+  | x => x
+  end.
 Proof. reflexivity. Qed.
-Lemma rx_model_sub_ok p s : no_bslash p = true ->
-  match rx_model_search (prepare_regex p true) s with Some b => b | None => false end
-  = rx_spec_sub p s.
-Proof. reflexivity. Qed.
+
+Lemma p_cat_step f s :
+  p_cat (S f) s =
+  match s with
+  | [] => XOk REps s
+  | c :: _ =>
+      if N.eqb c 41 || N.eqb c 124 then XOk REps s
+      else
+        match p_atom f s with
+        | XOk a r =>
+            match (if is_anchor a then XOk a r else p_quant a r) with
+            | XOk q r2 =>
+                match p_cat f r2 with
+                | XOk REps r3 => XOk q r3
+                | XOk rest r3 => XOk (RCat q rest) r3
+                | e => e
+                end
+            | e => e
+            end
+        | e => e
+        end
+  end.
+Proof. destruct s; reflexivity. Qed.
+
+Definition group_of (f : nat) (body : str) : rp re :=
+  match p_alt f body with
+  | XOk a (d :: r2) => if N.eqb d 41 then XOk a r2 else XBad
+  | XOk _ [] => XBad
+  | e => e
+  end.
+
+Lemma p_atom_step f s :
+  p_atom (S f) s =
+  match s with
+  | [] => XBad
+  | c :: r =>
+      if N.eqb c 40 then
+        match r with
+        | c2 :: r' =>
+            if N.eqb c2 63 then
+              match r' with
+              | c3 :: r'' => if N.eqb c3 58 then group_of f r'' else XUns
+              | [] => XUns
+              end
+            else group_of f r
+        | [] => group_of f r
+        end
+      else if N.eqb c 91 then
+        match r with
+        | c2 :: r' =>
+            if N.eqb c2 94 then
+              match class_items (S (length r')) r' [] with XOk rs r2 => XOk (RClass true rs) r2 | XBad => XBad | XUns => XUns end
+            else
+              match class_items (S (length r)) r [] with XOk rs r2 => XOk (RClass false rs) r2 | XBad => XBad | XUns => XUns end
+        | [] => XBad
+        end
+      else if N.eqb c 46 then XOk (RAny false) r
+      else if N.eqb c 94 then XOk RBegin r
+      else if N.eqb c 36 then XOk REnd r
+      else if N.eqb c 92 then
+        match r with
+        | e :: r2 => match esc_char e with Some x => XOk (RChar x) r2 | None => XUns end
+        | [] => XBad
+        end
+      else if N.eqb c 42 || N.eqb c 43 || N.eqb c 63 then XBad
+      else if N.eqb c 123 || N.eqb c 125 || N.eqb c 93 then XUns
+      else XOk (RChar c) r
+  end.
+Proof. destruct s; reflexivity. Qed.
+
+(* ---------- fuel monotonicity of successful parses ---------- *)
+Lemma parse_mono f :
+  (forall s r rest, p_alt f s = XOk r rest -> forall f', (f <= f')%nat -> p_alt f' s = XOk r rest) /\
+  (forall s r rest, p_cat f s = XOk r rest -> forall f', (f <= f')%nat -> p_cat f' s = XOk r rest) /\
+  (forall s r rest, p_atom f s = XOk r rest -> forall f', (f <= f')%nat -> p_atom f' s = XOk r rest).
+Proof.
+  induction f as [|f [IHa [IHc IHt]]]; [repeat split; intros; discriminate|].
+  assert (Hg : forall body r rest f', (f <= f')%nat -> group_of f body = XOk r rest -> group_of f' body = XOk r rest).
+  { intros body r rest f' Hf H. unfold group_of in *.
+    destruct (p_alt f body) as [a ra| |] eqn:Ea; try discriminate. rewrite (IHa _ _ _ Ea f' Hf). exact H. }
+  repeat split; intros s r rest H f' Hf; (destruct f' as [|f']; [lia|]); assert (Hf2 : (f <= f')%nat) by lia.
+  - rewrite p_alt_step in *. destruct (p_cat f s) as [a rc| |] eqn:Ec; try discriminate.
+    rewrite (IHc _ _ _ Ec f' Hf2). destruct rc as [|c rc]; [exact H|].
+    destruct (N.eqb c 124); [|exact H].
+    destruct (p_alt f rc) as [b r2| |] eqn:Ea; try discriminate. rewrite (IHa _ _ _ Ea f' Hf2). exact H.
+  - rewrite p_cat_step in *. destruct s as [|c s]; [exact H|].
+    destruct (N.eqb c 41 || N.eqb c 124); [exact H|].
+    destruct (p_atom f (c :: s)) as [a ra| |] eqn:Et; try discriminate. rewrite (IHt _ _ _ Et f' Hf2).
+    destruct (if is_anchor a then XOk a ra else p_quant a ra) as [q r2| |]; try discriminate.
+    destruct (p_cat f r2) as [rest2 r3| |] eqn:Ec; try discriminate. rewrite (IHc _ _ _ Ec f' Hf2). exact H.
+  - rewrite p_atom_step in *. destruct s as [|c s]; [discriminate|].
+    destruct (N.eqb c 40); [|exact H].
+    destruct s as [|c2 s]; [apply (Hg _ _ _ _ Hf2 H)|].
+    destruct (N.eqb c2 63); [|apply (Hg _ _ _ _ Hf2 H)].
+    destruct s as [|c3 s]; [discriminate|]. destruct (N.eqb c3 58); [apply (Hg _ _ _ _ Hf2 H)|discriminate].
+Qed.
+
+(* ---------- extension: a successful parse is unchanged by a ')' following the input ---------- *)
+Lemma take_num_ext s : forall acc seen t,
+  (match t with c :: _ => is_digit_c c = false | [] => True end) ->
+  take_num (s ++ t) acc seen = (fst (take_num s acc seen), snd (take_num s acc seen) ++ t).
+Proof.
+  induction s as [|c s IH]; intros acc seen t Ht; cbn [app take_num].
+  - destruct t as [|d t]; [reflexivity|]. cbv beta iota in Ht. cbn [take_num fst snd app]. rewrite Ht. reflexivity.
+  - destruct (is_digit_c c); [apply IH; exact Ht|reflexivity].
+Qed.
+
+Definition close : N := 41%N.
+Section Ext.
+  Variable t' : str.
+  Notation t := (close :: t').
+
+  Lemma after_quant_ext r s q rest : after_quant r s = XOk q rest -> after_quant r (s ++ t) = XOk q (rest ++ t).
+  Proof.
+    destruct s as [|c s]; cbn [after_quant app].
+    - intros H. inversion H. reflexivity.
+    - destruct (is_quant_char c); [discriminate|]. intros H. inversion H. reflexivity.
+  Qed.
+
+  Lemma p_quant_ext a s q rest : p_quant a s = XOk q rest -> p_quant a (s ++ t) = XOk q (rest ++ t).
+  Proof.
+    destruct s as [|c s]; cbn [p_quant app].
+    - intros H. inversion H. reflexivity.
+    - destruct (N.eqb c 42); [apply after_quant_ext|]. destruct (N.eqb c 43); [apply after_quant_ext|].
+      destruct (N.eqb c 63); [apply after_quant_ext|].
+      destruct (N.eqb c 123); [|intros H; inversion H; reflexivity].
+      rewrite (take_num_ext s 0 false t) by reflexivity.
+      destruct (take_num s 0 false) as [[lo|] r1]; cbn [fst snd]; [|destruct (r1 ++ t); discriminate || (intros; discriminate)].
+      + destruct r1 as [|d r2]; [discriminate|]. cbn [app].
+        destruct (N.eqb d 125); [apply after_quant_ext|].
+        destruct (N.eqb d 44); [|discriminate].
+        rewrite (take_num_ext r2 0 false t) by reflexivity.
+        destruct (take_num r2 0 false) as [[hi|] r3]; cbn [fst snd].
+        * destruct r3 as [|e r4]; [discriminate|]. cbn [app]. destruct (N.eqb e 125); [|discriminate].
+          destruct (Nat.leb lo hi); [apply after_quant_ext|discriminate].
+        * destruct r3 as [|e r4]; [discriminate|]. cbn [app]. destruct (N.eqb e 125); [apply after_quant_ext|discriminate].
+  Qed.
+
+  Lemma class_char_ext s c rest : class_char s = XOk c rest -> class_char (s ++ t) = XOk c (rest ++ t).
+  Proof.
+    destruct s as [|x s]; [discriminate|]. cbn [class_char app].
+    destruct (N.eqb x 92).
+    - destruct s as [|e s]; [discriminate|]. cbn [app]. destruct (esc_char e); [|discriminate].
+      intros H. inversion H. reflexivity.
+    - destruct (_ || _); [discriminate|]. intros H. inversion H. reflexivity.
+  Qed.
+
+  Lemma class_items_ext f : forall s acc rs rest,
+    class_items f s acc = XOk rs rest -> forall f', (f <= f')%nat -> class_items f' (s ++ t) acc = XOk rs (rest ++ t).
+  Proof.
+    induction f as [|f IH]; intros s acc rs rest H f' Hf; [discriminate|].
+    destruct f' as [|f']; [lia|]. assert (Hf2 : (f <= f')%nat) by lia.
+    cbn [class_items] in *. destruct s as [|c s]; [discriminate|]. cbn [app].
+    destruct (N.eqb c 93).
+    - destruct acc; [discriminate|]. inversion H. reflexivity.
+    - change (c :: s ++ t) with ((c :: s) ++ t).
+      destruct (class_char (c :: s)) as [lo r1| |] eqn:Ec; try discriminate.
+      rewrite (class_char_ext _ _ _ Ec).
+      destruct r1 as [|d r2]; [discriminate|]. cbn [app].
+      destruct (N.eqb d 45).
+      + destruct r2 as [|e r3]; [discriminate|]. cbn [app]. destruct (N.eqb e 93); [discriminate|].
+        change (e :: r3 ++ t) with ((e :: r3) ++ t).
+        destruct (class_char (e :: r3)) as [hi r4| |] eqn:Ec2; try discriminate.
+        rewrite (class_char_ext _ _ _ Ec2). destruct (N.leb lo hi); [|discriminate].
+        apply IH; assumption.
+      + change (d :: r2 ++ t) with ((d :: r2) ++ t). apply IH; assumption.
+  Qed.
+
+  Lemma parse_ext f :
+    (forall s r rest, p_alt f s = XOk r rest -> p_alt f (s ++ t) = XOk r (rest ++ t)) /\
+    (forall s r rest, p_cat f s = XOk r rest -> p_cat f (s ++ t) = XOk r (rest ++ t)) /\
+    (forall s r rest, p_atom f s = XOk r rest -> p_atom f (s ++ t) = XOk r (rest ++ t)).
+  Proof.
+    induction f as [|f [IHa [IHc IHt]]]; [repeat split; intros; discriminate|].
+    assert (Hg : forall body r rest, group_of f body = XOk r rest -> group_of f (body ++ t) = XOk r (rest ++ t)).
+    { intros body r rest H. unfold group_of in *.
+      destruct (p_alt f body) as [a ra| |] eqn:Ea; try discriminate. rewrite (IHa _ _ _ Ea).
+      destruct ra as [|d r2]; [discriminate|]. cbn [app]. destruct (N.eqb d 41); [|discriminate].
+      inversion H. reflexivity. }
+    repeat split; intros s r rest H.
+    - rewrite p_alt_step in *. destruct (p_cat f s) as [a rc| |] eqn:Ec; try discriminate.
+      rewrite (IHc _ _ _ Ec). destruct rc as [|c rc].
+      + inversion H. subst. reflexivity.
+      + cbn [app]. destruct (N.eqb c 124).
+        * destruct (p_alt f rc) as [b r2| |] eqn:Ea; try discriminate. rewrite (IHa _ _ _ Ea).
+          inversion H. reflexivity.
+        * inversion H. reflexivity.
+    - rewrite p_cat_step in *. destruct s as [|c s].
+      + inversion H. subst. reflexivity.
+      + cbn [app]. destruct (N.eqb c 41 || N.eqb c 124); [inversion H; reflexivity|].
+        change (c :: s ++ t) with ((c :: s) ++ t).
+        destruct (p_atom f (c :: s)) as [a ra| |] eqn:Et; try discriminate. rewrite (IHt _ _ _ Et).
+        assert (Hq : forall q r2, (if is_anchor a then XOk a ra else p_quant a ra) = XOk q r2 ->
+                     (if is_anchor a then XOk a (ra ++ t) else p_quant a (ra ++ t)) = XOk q (r2 ++ t)).
+        { intros q r2 Hq. destruct (is_anchor a); [inversion Hq; reflexivity|apply p_quant_ext; exact Hq]. }
+        destruct (if is_anchor a then XOk a ra else p_quant a ra) as [q r2| |] eqn:Eq; try discriminate.
+        rewrite (Hq _ _ eq_refl).
+        destruct (p_cat f r2) as [rest2 r3| |] eqn:Ec; try discriminate. rewrite (IHc _ _ _ Ec).
+        destruct rest2; inversion H; reflexivity.
+    - rewrite p_atom_step in *. destruct s as [|c s]; [discriminate|]. cbn [app].
+      destruct (N.eqb c 40).
+      + destruct s as [|c2 s].
+        * (* "(" alone: the group body is empty and no ')' follows: not a success *)
+          unfold group_of in H. destruct f as [|[|f0]]; cbn in H; discriminate.
+        * cbn [app]. destruct (N.eqb c2 63).
+          -- destruct s as [|c3 s]; [discriminate|]. cbn [app]. destruct (N.eqb c3 58); [apply Hg; exact H|discriminate].
+          -- change (c2 :: s ++ t) with ((c2 :: s) ++ t). apply Hg. exact H.
+      + destruct (N.eqb c 91).
+        * destruct s as [|c2 s]; [discriminate|]. cbn [app]. destruct (N.eqb c2 94).
+          -- destruct (class_items (S (length s)) s []) as [rs r2| |] eqn:Ei; try discriminate.
+             rewrite (class_items_ext _ _ _ _ _ Ei (S (length (s ++ t)))) by (rewrite app_length; lia).
+             inversion H. reflexivity.
+          -- destruct (class_items (S (length (c2 :: s))) (c2 :: s) []) as [rs r2| |] eqn:Ei; try discriminate.
+             change (c2 :: s ++ t) with ((c2 :: s) ++ t).
+             rewrite (class_items_ext _ _ _ _ _ Ei (S (length ((c2 :: s) ++ t)))) by (rewrite app_length; lia).
+             inversion H. reflexivity.
+        * destruct (N.eqb c 46); [inversion H; reflexivity|].
+          destruct (N.eqb c 94); [inversion H; reflexivity|].
+          destruct (N.eqb c 36); [inversion H; reflexivity|].
+          destruct (N.eqb c 92).
+          -- destruct s as [|e s]; [discriminate|]. cbn [app]. destruct (esc_char e); [|discriminate].
+             inversion H. reflexivity.
+          -- destruct (_ || _); [discriminate|]. destruct (_ || _); [discriminate|]. inversion H. reflexivity.
+  Qed.
+End Ext.
+
+(* ---------- prepare_regex on a pattern without backslashes ---------- *)
+Lemma replace_2bs_no_bslash s : no_bslash s = true -> replace_2bs s = s.
+Proof.
+  induction s as [|c s IH]; [reflexivity|]. cbn [no_bslash forallb]. intros H.
+  apply andb_true_iff in H. destruct H as [Hc Hs]. apply negb_true_iff in Hc.
+  cbn [replace_2bs]. destruct s as [|c2 s']; [reflexivity|].
+  unfold c_bslash. rewrite Hc. cbn [andb]. f_equal. apply IH. exact Hs.
+Qed.
+
+Definition wrap (p : str) : str := [94; 40; 63; 58]%N ++ p ++ [41; 36]%N.
+
+Lemma prepare_search p : no_bslash p = true -> prepare_regex p true = p.
+Proof. intros H. unfold prepare_regex. apply replace_2bs_no_bslash. exact H. Qed.
+Lemma prepare_match p : no_bslash p = true -> prepare_regex p false = wrap p.
+Proof.
+  intros H. unfold prepare_regex, wrap. apply replace_2bs_no_bslash.
+  unfold no_bslash in *. cbn [app forallb]. rewrite forallb_app, H. reflexivity.
+Qed.
+
+(* ---------- the wrapped pattern parses to ^, the pattern, $ ---------- *)
+Ltac eqbs := repeat match goal with
+                    | |- context [N.eqb ?a ?b] =>
+                        let v := eval vm_compute in (N.eqb a b) in
+                        match v with true => idtac | false => idtac end;
+                        change (N.eqb a b) with v
+                    end; cbn [orb andb].
+
+Lemma parse_wrap p r : re_parse p = PValid r -> re_parse (wrap p) = PValid (RCat RBegin (RCat r REnd)).
+Proof.
+  unfold re_parse. destruct (p_alt (parse_fuel p) p) as [r0 rest| |] eqn:E; try discriminate.
+  destruct rest as [|c rest]; [|discriminate]. intros H. inversion H. subst r0. clear H.
+  (* the pattern itself, followed by ")$", with the fuel available at that depth *)
+  set (k := (3 * length p + 17)%nat).
+  assert (Hk : parse_fuel (wrap p) = S (S (S (S (S k))))).
+  { unfold parse_fuel, wrap, k. rewrite !app_length. cbn [length]. lia. }
+  assert (Hin : p_alt (S k) (p ++ [41; 36]%N) = XOk r [41; 36]%N).
+  { destruct (parse_ext [36%N] (parse_fuel p)) as [Ha _]. specialize (Ha p r [] E). cbn [app] in Ha.
+    destruct (parse_mono (parse_fuel p)) as [Hm _]. apply (Hm _ _ _ Ha). unfold parse_fuel, k. lia. }
+  rewrite Hk. unfold wrap. cbn [app].
+  rewrite p_alt_step, p_cat_step. eqbs.
+  rewrite p_atom_step. eqbs. cbn [is_anchor].
+  rewrite p_cat_step. eqbs. rewrite p_atom_step. eqbs.
+  unfold group_of. rewrite Hin. eqbs. cbn [is_anchor].
+  assert (Hr : (if is_anchor r then XOk r [36%N] else p_quant r [36%N]) = XOk r [36%N]).
+  { destruct (is_anchor r); [reflexivity|]. cbn [p_quant]. eqbs. reflexivity. }
+  rewrite Hr. rewrite p_cat_step. eqbs. rewrite p_atom_step. eqbs. cbn [is_anchor].
+  rewrite p_cat_step. reflexivity.
+Qed.
+
+(* ---------- searching the wrapped expression is matching the whole string ---------- *)
+Definition nonempty {A} (l : list A) : bool := match l with [] => false | _ => true end.
+
+Lemma nonempty_nodup l : nonempty (nodup_nat l) = nonempty l.
+Proof.
+  induction l as [|x l IH]; [reflexivity|]. cbn [nodup_nat].
+  destruct (existsb (Nat.eqb x) l) eqn:E; [|reflexivity].
+  rewrite IH. destruct l; [discriminate|reflexivity].
+Qed.
+Lemma nonempty_flat_map {A B} (f : A -> list B) l : nonempty (flat_map f l) = existsb (fun x => nonempty (f x)) l.
+Proof.
+  induction l as [|x l IH]; [reflexivity|]. cbn [flat_map existsb]. rewrite <- IH.
+  destruct (f x); reflexivity.
+Qed.
+
+Lemma search_anchored s r : search s (RCat RBegin (RCat r REnd)) = full s r.
+Proof.
+  unfold search, full.
+  assert (H0 : nonempty (ends s (RCat RBegin (RCat r REnd)) 0) = existsb (Nat.eqb (length s)) (ends s r 0)).
+  { cbn [ends Nat.eqb flat_map]. rewrite app_nil_r, !nonempty_nodup, nonempty_flat_map.
+    induction (ends s r 0) as [|j l IH]; [reflexivity|]. cbn [existsb]. rewrite IH. f_equal.
+    rewrite Nat.eqb_sym. destruct (Nat.eqb (length s) j); reflexivity. }
+  assert (Hi : forall i, i <> 0%nat -> ends s (RCat RBegin (RCat r REnd)) i = []).
+  { intros i Hi. cbn [ends]. destruct (Nat.eqb_spec i 0); [contradiction|]. reflexivity. }
+  cbn [seq existsb].
+  change (match ends s (RCat RBegin (RCat r REnd)) 0 with [] => false | _ :: _ => true end)
+    with (nonempty (ends s (RCat RBegin (RCat r REnd)) 0)).
+  rewrite H0.
+  assert (Hrest : existsb (fun i => match ends s (RCat RBegin (RCat r REnd)) i with [] => false | _ :: _ => true end)
+                    (seq 1 (length s)) = false).
+  { apply not_true_is_false. intros Ht. apply existsb_exists in Ht. destruct Ht as [i [Hin Hne]].
+    apply in_seq in Hin. rewrite Hi in Hne by lia. discriminate. }
+  rewrite Hrest, orb_false_r. reflexivity.
+Qed.
+
+(* ---------- the two hypotheses of Theorem A ---------- *)
+Theorem rx_model_sub_ok p s : no_bslash p = true -> regex_result rx_model_search p s true = rx_spec_sub p s.
+Proof.
+  intros H. unfold regex_result, rx_model_search, rx_spec_sub. rewrite (prepare_search p H).
+  destruct (re_parse p); reflexivity.
+Qed.
+
+Theorem rx_model_full_ok p s : no_bslash p = true -> regex_result rx_model_search p s false = rx_spec_full p s.
+Proof.
+  intros H. unfold regex_result, rx_model_search, rx_spec_full.
+  rewrite (prepare_search p H), (prepare_match p H).
+  destruct (re_parse p) as [r| |] eqn:E; try reflexivity.
+  rewrite (parse_wrap p r E). apply search_anchored.
+Qed.
